@@ -85,7 +85,8 @@ def get_fn(fn):
 
 class Scenario:
     def __init__(self, base, fmt, rel, initial, fn, workers, reverse):
-        self.faults = fmt.endswith("+faults")
+        self.faults = "+faults" in fmt
+        self.pathlib = "+path" in fmt  # arguments given as pathlib.Path objects (relative_path too) instead of strings
         fmt = fmt.split("+")[0]
         self.fmt, self.rel, self.initial, self.fn, self.workers, self.reverse = fmt, rel, initial, fn, workers, reverse
         self.root = tempfile.mkdtemp(prefix="kdv_c20_", dir=base)
@@ -114,9 +115,13 @@ class Scenario:
         self.modules = [self.module, cu]
 
     def desc(self):
-        return dict(fmt=self.fmt + ("+faults" if self.faults else ""), rel=self.rel, initial=self.initial, fn=self.fn, workers=self.workers, reverse=self.reverse)
+        return dict(fmt=self.fmt + ("+faults" if self.faults else "") + ("+path" if self.pathlib else ""), rel=self.rel, initial=self.initial, fn=self.fn, workers=self.workers, reverse=self.reverse)
 
     def kwargs(self):
+        if self.pathlib:
+            from pathlib import Path
+            return dict(global_path=Path(self.groot), local_path=Path(self.lroot),
+                        relative_path=Path(self.rel) if self.rel else None, num_workers=self.workers)
         return dict(global_path=self.groot, local_path=self.lroot, relative_path=self.rel, num_workers=self.workers)
 
     def run(self, crash_at):
@@ -399,10 +404,14 @@ def scenarios(tier, seed):
         out = sel
         out.append(("zips3", None, "parent", "folder", 2, False))
         out += [("zipsU", None, "parent", fn, 0, False) for fn in ("folder", "image_folder")]
+        out += [("raw+path", "nest/ds", "parent", "folder", 0, False), ("zips+path", None, "absent", "image_folder", 1, True),
+                ("zip+path", "nest/ds", "absent", "folder", 0, False), ("zip+path", None, "parent", "image_folder", 0, True)]
         for fn in ("folder", "image_folder"):
             out += [("zip+faults", None, "parent", fn, 0, False), ("zips+faults", None, "absent", fn, 0, False),
                     ("zips3+faults", "nest/ds", "parent", fn, 1, True), ("zips3+faults", None, "parent", fn, 2, False)]
     else:
+        out += [(fmt + "+path", rel, initial, fn, 0, rev) for fn in ("folder", "image_folder") for fmt in ("raw", "zip", "zips")
+                for rel, initial, rev in ((None, "parent", False), ("nest/ds", "absent", True))]
         out += [("zipsU", rel, initial, fn, w, rev) for fn in ("folder", "image_folder") for rel, initial, w, rev in
                 ((None, "parent", 0, False), ("nest/ds", "absent", 1, True), (None, "complete", 0, False))]
         for fn in ("folder", "image_folder"):
@@ -419,7 +428,7 @@ def scenarios(tier, seed):
 
 def task(args):
     specs, depth, cap_states = args
-    if specs[0][4] >= 2 and not specs[0][0].endswith("+faults"):
+    if specs[0][4] >= 2 and "+faults" not in specs[0][0]:
         # joblib workers are separate interpreters: only the parent's own operations are crash points, and a call costs
         # seconds - explore the uninterrupted behaviour (quick) and crash histories of depth 1 (thorough)
         depth = 0 if depth <= 2 else 1
@@ -429,7 +438,7 @@ def task(args):
         for spec in specs:
             sc = Scenario(base, *spec)
             try:
-                if spec[0].endswith("+faults"):
+                if "+faults" in spec[0]:
                     explore_faults(sc, p)
                 else:
                     explore_scenario(sc, depth, p, cap_states)
